@@ -1646,8 +1646,16 @@ func (env *LEnv) funCall(ctx context.Context, fun, args *LVal) *LVal {
 	// checking.  But push FID onto the stack before popping to simplify
 	// book-keeping.  When a debugger is attached, TRO is disabled globally
 	// to provide predictable stepping and stack traces.
+	//
+	// Only a lisp function is a target: unwinding to an earlier frame of the
+	// same function re-invokes it there, and call() gives a lisp function its
+	// own package and scope wherever it is re-invoked.  A builtin runs in the
+	// package and environment of the call that is current when it is invoked.
+	// (funcall 'helper x) in tail position of a function that was itself
+	// reached through funcall used to unwind to the OUTER funcall's frame and
+	// resolve helper there, in the outer caller's package.
 	npop := 0
-	if env.Runtime.Debugger == nil {
+	if env.Runtime.Debugger == nil && fun.Builtin() == nil {
 		npop = env.Runtime.Stack.TerminalFID(fun.FID())
 	}
 
